@@ -29,6 +29,9 @@ def main():
     import warnings
 
     warnings.filterwarnings("ignore")
+    import logging
+
+    logging.disable(logging.CRITICAL)
     from vlib import runner
 
     try:
